@@ -366,7 +366,7 @@ package keeper
 //@ ensures[C10.auth]   msg.From != old(st.attesterManager.val) ==> err != nil && unchanged(st) && events == [] && calls == []
 //@ ensures[C10.rejected C13.rejected C15.rejected] err != nil && !emitErr(0) ==> unchanged(st)
 //@ ensures[C10.only]   err == nil ==> msg.From == old(st.attesterManager.val)
-//@ ensures[C13.enable C19.add] err == nil ==> len(fromHex(msg.Attester)) > 0 && !old(st.attesters.has[msg.Attester]) && st.attesters.has[msg.Attester] && st.attesters.val[msg.Attester] == msg.Attester && st.nAtt == old(st.nAtt) + 1
+//@ ensures[C13.enable C19.add C01.enabled] err == nil ==> len(fromHex(msg.Attester)) > 0 && !old(st.attesters.has[msg.Attester]) && st.attesters.has[msg.Attester] && st.attesters.val[msg.Attester] == msg.Attester && st.nAtt == old(st.nAtt) + 1
 //@ ensures[C13.dup C19.dup] old(st.attesters.has[msg.Attester]) ==> err != nil
 //@ ensures[C13.empty]  len(fromHex(msg.Attester)) == 0 ==> err != nil
 //@ ensures[C10.total C12.admin] msg.From == old(st.attesterManager.val) && len(fromHex(msg.Attester)) > 0 && !old(st.attesters.has[msg.Attester]) && !emitErr(0) ==> err == nil
@@ -379,7 +379,7 @@ package keeper
 //@ ensures[C10.auth]   msg.From != old(st.attesterManager.val) ==> err != nil && unchanged(st) && events == [] && calls == []
 //@ ensures[C10.rejected C13.rejected C15.rejected] err != nil && !emitErr(0) ==> unchanged(st)
 //@ ensures[C10.only]   err == nil ==> msg.From == old(st.attesterManager.val)
-//@ ensures[C13.disable C19.remove] err == nil ==> old(st.attesters.has[msg.Attester]) && old(st.nAtt) != 1 && old(st.threshold.set) && uint32(old(st.nAtt)) > old(st.threshold.val) && !st.attesters.has[msg.Attester] && st.nAtt == old(st.nAtt) - 1
+//@ ensures[C13.disable C19.remove C01.disabled] err == nil ==> old(st.attesters.has[msg.Attester]) && old(st.nAtt) != 1 && old(st.threshold.set) && uint32(old(st.nAtt)) > old(st.threshold.val) && !st.attesters.has[msg.Attester] && st.nAtt == old(st.nAtt) - 1
 //@ ensures[C13.missing C19.missing] !old(st.attesters.has[msg.Attester]) ==> err != nil
 //@ ensures[C10.total C12.admin] msg.From == old(st.attesterManager.val) && len(fromHex(msg.Attester)) > 0 && old(st.attesters.has[msg.Attester]) && old(st.nAtt) != 1 && old(st.threshold.set) && uint32(old(st.nAtt)) > old(st.threshold.val) && !emitErr(0) ==> err == nil
 //@ emits[C15.event]    [AttesterDisabled{Attester: msg.Attester}]
@@ -925,6 +925,8 @@ package keeper
 
 //@ func (Keeper) GetAllUsedNonces(ctx) (list)
 //@ layer L2
+// used_nonces.go is anchored by C02 (a pair reported as used stays used, also across export and import)
+//@ serves C02 C15 C17 C19
 //@ ensures[all] list == stNonces()
 //@ modifies none
 //@ local list []types.Nonce
